@@ -206,6 +206,14 @@ def file_rules(files, ctx):
     return {k: v for k, v in out.items() if v is not None}
 
 
+def _text(x):
+    t = (x.text or "").strip()
+    for c in x.children:
+        if (c.tail or "").strip():
+            t = t or c.tail.strip()
+    return t
+
+
 def context_of(files):
     structs, enums, member = [], [], None
     fams = None
@@ -215,7 +223,7 @@ def context_of(files):
             if t.tag == "struct" and t.get("name"):
                 structs.append(t.get("name"))
             if t.tag == "enum" and t.get("name") not in (None, "PacketFamily", "PacketAction"):
-                vals = [(v.get("name"), int(v.text.strip())) for v in t.children if v.tag == "value"]
+                vals = [(v.get("name"), int(_text(v))) for v in t.children if v.tag == "value"]
                 if vals and member is None:
                     enums.append(t.get("name"))
                     member = vals[0]
